@@ -64,9 +64,17 @@ def make_case(rng, c, allow_all_outlier=False):
                 e["log_p_one"] = tie
                 ch = int(rng.choice(list(results.keys())))
                 results[ch]["trace"].append(e)
+    if c % 6 == 4 and len(forests) >= 2:
+        # special float values among the scores: every record of one topology scores minus infinity
+        target = forests[int(rng.integers(0, len(forests)))].key()
+        for r in results.values():
+            for e in r["trace"]:
+                if tracegen.entry_key(e) == target:
+                    e["log_p_one"] = float("-inf")
     # readers take data / samples / clusters from chain 0: it must exist (it always does in a run)
     return data, samples, results, {"n": n, "D": D, "chains": n_chains, "insertion_order": [int(x) for x in order],
-                                    "lens": lens, "scores": scores, "distinct_forests": k, "long": bool(long_trace)}
+                                    "lens": lens, "scores": scores, "distinct_forests": k, "long": bool(long_trace),
+                                    "minus_infinity_scores": bool(c % 6 == 4 and len(forests) >= 2)}
 
 
 def trace_task(task):
@@ -99,6 +107,8 @@ def trace_task(task):
             summ, total, best = tracegen.reference_summary(results)
             part.count("evaluations")
             part.count("entries", total)
+            if desc.get("minus_infinity_scores"):
+                part.count("traces_with_minus_infinity_scores")
             if desc.get("long"):
                 part.count("long_traces")
                 part.maxi("most_distinct_topologies_in_a_trace", len(summ))
